@@ -266,7 +266,19 @@ func structStringFn(name string, a []value) (value, bool) {
 		}
 		parts, ok := splitStruct(a[0], sep, n)
 		if !ok {
-			return nil, false
+			if n != 2 {
+				return nil, false
+			}
+			// first occurrence of sep, through the string theory (exact)
+			st, sp := strTerm(a[0]), smtStrLit(sep)
+			if X.branch(mkBool("(str.contains "+st+" "+sp+")"), "split-contains") {
+				idx := "(str.indexof " + st + " " + sp + " 0)"
+				head := symStr{"(str.substr " + st + " 0 " + idx + ")"}
+				tail := symStr{fmt.Sprintf("(str.substr %s (+ %s %d) (- (str.len %s) (+ %s %d)))", st, idx, len(sep), st, idx, len(sep))}
+				parts = []value{head, tail}
+			} else {
+				parts = []value{a[0]}
+			}
 		}
 		if name == "strings.Cut" {
 			if len(parts) == 2 {
@@ -299,6 +311,18 @@ func symStringFn(fr *frame, name string, a []value) value {
 	case "strings.TrimSuffix":
 		s, p := strTerm(a[0]), strTerm(a[1])
 		return symStr{"(ite (str.suffixof " + p + " " + s + ") (str.substr " + s + " 0 (- (str.len " + s + ") (str.len " + p + "))) " + s + ")"}
+	case "strings.TrimSpace":
+		// exact for ASCII subjects: s = l ++ m ++ r, l and r white space, m neither starts nor ends with white space
+		st := strTerm(a[0])
+		l, m, r := X.fresh("trim.l", "String"), X.fresh("trim.m", "String"), X.fresh("trim.r", "String")
+		ws := "(re.union (str.to_re \" \") (re.range \"\\u{9}\" \"\\u{d}\"))"
+		isWS := func(c string) string { return "(str.in_re " + c + " " + ws + ")" }
+		X.addPC("(= " + st + " (str.++ " + l + " " + m + " " + r + "))")
+		X.addPC("(str.in_re " + l + " (re.* " + ws + "))")
+		X.addPC("(str.in_re " + r + " (re.* " + ws + "))")
+		X.addPC("(or (= " + m + " \"\") (and (not " + isWS("(str.at "+m+" 0)") + ") (not " + isWS("(str.at "+m+" (- (str.len "+m+") 1))") + ")))")
+		X.res.Notes = appendUniq(X.res.Notes, "strings.TrimSpace of a symbolic string: ASCII white space only (subjects are assumed ASCII)")
+		return symStr{m}
 	case "strings.ToUpper", "strings.ToLower":
 		// opaque: some string of the same length (over-approximation, see DESIGN.md)
 		v := X.fresh(strings.TrimPrefix(name, "strings."), "String")
